@@ -89,7 +89,7 @@ func TestC10(t *testing.T) {
 	mon.Main(t, mon.Check{
 		ID:    "C10",
 		Level: "fault_enumeration",
-		Rule:  "real gbn handshake code in virtual time. Enumeration: every decision vector in {deliver, drop, duplicate in order, delay past the handshake timeout}^(2k) over the first k packets of each direction (k=2 quick: 256 vectors, k=3 thorough: 4096) x 3 start orders (client first, server first, same instant) x 18 stale-prefix configurations (packets of an earlier connection queued in either direction: SYN with another N, SYN(255), SYNACK, DATA, PING, ACK+NACK, FIN and mixes), full product in both tiers; window N rotating over {1,20,254} in quick, N=20 plus all N in 1..254 for the no-fault and single-fault rows in thorough. Drivers behave like the mailbox layer: the server re-listens after a failed or finished connection, the client re-dials (up to 40 attempts, 0.5 s apart) when a constructor fails or its first request is not answered within 20 s; keepalive as the mailbox configures it (7s/3s client, 5s/3s server); a third of the cases over links whose Send/Recv calls take 1 ns .. 1 µs. Oracles: a server that enters the data phase has a representable window (n != 255, sequence space n+1 > n) that appeared in some SYN delivered to it; when data flows both ends use the client's N; after the faulty prefix a handshake succeeds and one message is delivered in each direction within 15 virtual minutes; no worker death. Non-trivial = at least one fault decision or stale packet; distinct = (vector, order, stale, N).",
+		Rule:  "real gbn handshake code in virtual time. Enumeration: every decision vector in {deliver, drop, duplicate in order, delay past the handshake timeout}^(2k) over the first k packets of each direction (k=2 quick: 256 vectors, k=3 thorough: 4096) x 3 start orders (client first, server first, same instant) x 18 stale-prefix configurations (packets of an earlier connection queued in either direction: SYN with another N, SYN(255), SYNACK, DATA, PING, ACK+NACK, FIN and mixes), full product in both tiers; window N rotating over {1,20,254} in quick, N=20 plus all N in 1..254 for the no-fault and single-fault rows in thorough. Drivers behave like the mailbox layer: the server re-listens after a failed or finished connection, the client re-dials (up to 40 attempts, 0.5 s apart) when a constructor fails or its first request is not answered within 20 s; keepalive as the mailbox configures it (7s/3s client, 5s/3s server); a third of the cases over links whose Send/Recv calls take 1 ns .. 1 µs. Oracles: a server that enters the data phase has a representable window (n != 255, sequence space n+1 > n) that appeared in some SYN delivered to it; when data flows both ends use the client's N; after the faulty prefix a handshake succeeds and one message is delivered in each direction within 15 virtual minutes; no worker death. Plus 144 transport-error cases: the k-th transport read or write (k in 1..4) of the server or of the client fails once with an error (nothing lost, the transport works afterwards) x 3 start orders x N in {1,20,254}; a constructor that returns neither a connection nor an error is a violation. Non-trivial = at least one fault decision or stale packet; distinct = (vector, order, stale, N).",
 		Assumptions: []string{
 			"stale SYNs that were really delivered to the server are not held against it (it cannot tell them apart)",
 			"transport preserves per-direction order",
